@@ -1,36 +1,36 @@
 import json, os, shutil, glob
-W='p'
+W='q'
 rows = {
- 'C01': ("table cache keyed by the table id narrowed to 32 bits",
-         "two tables in one dump whose 6-byte ids agree in the low 32 bits",
-         "C01: count, event-table, panic, stream-result (through the confusable / boundary table ids of waves h and i)"),
- 'C02': ("reader drops 'heartbeats' by looking at byte 4 of the raw packet (the top byte of the event timestamp) instead of the type byte",
-         "any event whose header timestamp has top byte 0x1b (a session running under SET TIMESTAMP in 1984)",
-         "C02: grouping - **missed at first** (timestamps only counted up from ~2017; a third of the histories now give one event in ten an arbitrary 32-bit timestamp)"),
- 'C03': ("state reset in commit() guarded by tranEvents != nil: the in-transaction flag stays set after a ROLLBACK",
-         "a rolled-back transaction directly followed by a unit that commits without BEGIN",
-         "C03: content:count, resume-suffix, crash-restart-exactly-once"),
- 'C04': ("the first commit of an attempt is skipped when it ends at the offset the attempt started from (file names not compared)",
-         "an attempt that starts at the last commit of file A, rotates into file B, and B's first transaction ends at that same offset",
-         "C04: lost, resume-coordinate; C03 too - **missed at first** (a quarter of the multi-file histories now pad a later file so that its first commit ends at exactly the offset of the previous file's last commit)"),
- 'C05': ("deferred cleanup waits for the reader by draining the event channel, which is nil when the dump request could not be sent",
-         "connection lost between the OK for the checksum SET and the write of COM_BINLOG_DUMP",
-         "C05: stream-hang"),
- 'C06': ("after a parser failure Stream returns Error() instead when the reader has already posted its exit reason",
-         "a handler / mapper / decode failure on the last unit with the master's EOF (or a cancel) already read by the reader",
-         "C06: stream-nil-on-failure (the rule of wave k: a returned handler error must surface whatever overlaps)"),
- 'C07': ("SetBinlogPosition trims white space from the file name; Stream stores resume positions through the same setter",
-         "a binlog file name that begins or ends with white space",
-         "C07: file"),
- 'C08': ("per-event copies carved out of 256 KiB blocks; an event that fits a block exactly leaves the offset counter on a multiple of the block size",
-         "small events summing to exactly 262144 bytes at an event boundary, a retained value from the start of the block, one more packet",
-         "C08: mutated-after-delivery"),
- 'C15': ("mapper answers memoised per schema + '.' + table",
-         "two tables whose dotted names coincide (schema a.b / table c and schema a / table b.c)",
-         "C15: mapper-call (through the odd identifiers of wave i)"),
- 'C17': ("packets of 23 bytes or more whose last four bytes are the CRC32 of the rest skip the validity test on checksummed streams",
-         "a malformed packet with a matching CRC32 trailer",
-         "C17: accepted-malformed, panic, partial-delivery - **missed at first** (a fifth of the malformed packets of 23 bytes or more now end in the correct CRC32 of their own bytes)"),
+ 'C01': ("events whose header server_id equals the replica's own id skipped (third placement of this filter, after the checksum strip)",
+         "a committed transaction stamped with the replica's own server id",
+         "C01: count, order"),
+ 'C02': ("DDL / DML query events whose error_code is 1053 / 1184 / 1317 / 1927 ('statement was killed') skipped",
+         "a statement logged with one of those four error codes",
+         "C02: grouping (error codes of query events are now drawn half of the time from the codes a master logs for killed / failed statements)"),
+ 'C03': ("statement classified by the word behind a leading '/*' (meant for '/*!' version comments only)",
+         "a comment-led statement inside a transaction whose comment starts with commit / rollback",
+         "C03: end-label, resume-suffix, crash-restart-exactly-once - **missed at first** (comment-led statements were excluded because classifying the statement behind the comment is a legitimate choice; they are now generated inside transactions as *optional* changes: present or absent, never a commit point)"),
+ 'C04': ("file name taken from the dump's opening artificial ROTATE, checksum-stripped by the first FORMAT_DESCRIPTION's algorithm",
+         "binlog_checksum changed on the master after the start file was written: the opening ROTATE follows the connection's setting, the file's FORMAT_DESCRIPTION the old one",
+         "C04: reordered, resume-coordinate - **missed at first** (the simulated dump thread built the opening ROTATE with the start file's checksum setting; it now also uses the newest file's setting or the opposite one)"),
+ 'C05': ("after a failed checksum SET the connection is closed only if the error is a MySQL error packet",
+         "the SET answered by a complete reply with a wrong sequence id or a malformed body",
+         "C05: goroutine-leak:watcher, socket-not-closed - **missed at first** (the set-error fault only sent an ERR packet; it now also sends an OK with a wrong sequence id or a malformed result-set header)"),
+ 'C06': ("per-row column-count guard compares against the table map instead of the mapper's table",
+         "a table id re-announced with fewer columns (id reuse after a master restart), then rows for it",
+         "C06: stream-nil-on-failure - **missed at first** (the column-count-change unit was C15-only; it is now part of the C06 family, judged when its last rows event has been delivered)"),
+ 'C07': ("Error() increments the configured server id when the master's error says a replica with the same id has connected",
+         "ERR 1236 with the 'slave with the same server_uuid' text, Error() called, another attempt",
+         "C07: server-id - **missed at first** (the real texts of the master's 1236 errors are now among the ERR messages, errno 1236 is drawn more often)"),
+ 'C08': ("deferred clean-up nils the pending-events slice; on a handler error that slice is the refused Transaction's Events",
+         "a handler that keeps the transaction it refuses",
+         "C08: mutated-after-delivery - **missed at first** (a fifth of the C08 cases now start with a call in which the handler refuses - and keeps - one transaction)"),
+ 'C15': ("'last looked-up table' shortcut in front of the table-id lookup compares only the low 32 bits",
+         "rows events back to back for two 6-byte ids that agree in their low 32 bits",
+         "C15: attribution, wrong-table, panic"),
+ 'C17': ("before the first FORMAT_DESCRIPTION the gate only requires 13 header bytes and a consistent length",
+         "a 13..18-byte packet with a consistent length field and type ROTATE / FORMAT_DESCRIPTION at packet index 0 or 1",
+         "C17: accepted-malformed, panic - **missed at first** (a tenth of the malformed packets are now 13..18 bytes long with a correct length field and an early-event type)"),
 }
 for p,(chg,needs,caught) in rows.items():
     src=f'/tmp/wt-{p}-{W}/_seeded'
